@@ -98,6 +98,10 @@ def fresh_index_bytes(out_path):
 _STALE = {}
 
 
+def data_has_sync(data):
+    return b'\x2e\x31' in data
+
+
 def stale_files(rng):
     """Output and index of an earlier extraction (made once per run by the implementation itself, from a small valid log)."""
     if 'v' not in _STALE:
@@ -128,8 +132,8 @@ def one_file(ctx, data, kinds, lines, pending, via_app=False, save_index=True, s
     if via_app == 'locate':
         out = os.path.splitext(path)[0] + '.p1log'
         save_index = True
-    if stale is not None and not save_index:
-        stale = (stale[0], None)        # the property says nothing about an old index when none is requested
+    if stale is not None and not save_index and data_has_sync(data):
+        stale = (stale[0], None)        # the property says nothing about an old index next to a NEW output when none is requested
     r1 = extract(path, out, via_app, save_index, stale)
     replay = {'file': data.hex(), 'tokens': kinds, 'via_app': via_app, 'save_index': save_index}
     if stale is not None:
@@ -192,8 +196,10 @@ def judge(ctx, replay, count, ob, ib, fresh, again, mo):
                       ('no file' if ob is None else len(ob), count, 'no file' if mout == 'nofile' else len(mout) // 2, mcount), replay)
         return
     if ob is None:
-        if ib is not None and ib.hex() != replay.get('stale_index'):
-            ctx.violation('C18/index-without-output', 'an index file was written although no message was found', replay)
+        if ib is not None:
+            ctx.violation('C18/index-without-output', 'no message was found and no output exists, but an index file is at the output '
+                          'path' + (' (left over from an earlier extraction to the same path)' if ib.hex() == replay.get('stale_index')
+                                    else ' (written by this extraction)'), replay)
         ctx.count('message_free_inputs')
         return
     res, fb = fresh
